@@ -489,7 +489,7 @@ pub fn run(replay: Option<Value>) -> i32 {
     let plan: Vec<(usize, u8)> = if thorough {
         vec![(1, 4), (2, 4), (3, 3), (4, 3), (5, 2), (6, 2), (7, 2), (8, 2)]
     } else {
-        vec![(1, 3), (2, 3), (3, 2), (4, 2), (8, 1)]
+        vec![(1, 3), (2, 3), (3, 3), (4, 2), (5, 2), (8, 1)]
     };
     let mut lattice = vec![];
     let mut total_states = 0u64;
